@@ -50,6 +50,10 @@ CHECKS['C01'] = dict(
          'the generated function) is proved equivalent on everything live for every annotated program that passes decidable side conditions '
          '(functionalise_correct); the conditions are evaluated in Coq on every generated program, on the live sets of the real analysis and on the '
          'locals of the really generated body functions read off with CPython\'s symtable (translation validation, ~115 programs per run). '
+         '(4) the expression passes (conditional_expressions.py, logical_expressions.py: and / or / not / conditional expressions / == != rewritten into '
+         'operator calls with lambdas) are proved to preserve value, trace and decisions for all expressions with the operator implementations '
+         'translated from malt/operators on every run (expression_passes_correct; comparison chains with an overloaded operator are the known '
+         'finding chain_refuted); model tied structurally to the real passes (~330 expressions per run), expression semantics validated against CPython. '
          'The end-to-end claim (13 passes + loader) is validated, not proved: a differential oracle runs original vs '
          'malt.to_graph(original) on seeded generated programs x decision vectors x option sets (recursive on/off, feature sets) and '
          'compares return value, ordered external-call log, exception type, mutated arguments and module globals.',
